@@ -8,7 +8,7 @@ const stance = "Static analysis of /repo's current source (go/packages + go/type
 func init() {
 	defProp(&Prop{ID: "C01", Title: "Keyspace is a sequential typed map",
 		Explanation: stance + "Decided clause: a generic/string command applied to a value of the wrong type fails with an error instead of panicking or silently succeeding (type assertions on store values are comma-ok with an error exit), and constant indices into the command are inside every possible length.",
-		Decides:     []string{"WT wrong-type discipline of the generic and string handlers", "AR constant index safety of the generic and string handlers and key functions", "NUM every numeric conversion of the family parses/prints base 10, 64 bits", "X4 a multi-key write gives each key its own deadline", "FA the write that can be refused is the first keyspace mutation of the command (a command that fails has changed nothing)", "DC counted changes are duplicate-safe", "MV write-then-delete under two client-supplied names is guarded by a comparison of the names (RENAME k k)"},
+		Decides:     []string{"WT wrong-type discipline of the generic and string handlers", "AR constant index safety of the generic and string handlers and key functions", "NUM every numeric conversion of the family parses/prints base 10, 64 bits", "X4 a multi-key write gives each key its own deadline", "FA the write that can be refused is the first keyspace mutation of the command (a command that fails has changed nothing)", "DC counted changes are duplicate-safe", "MV write-then-delete under two client-supplied names is guarded by a comparison of the names (RENAME k k)", "A1 refusal-before-first-write: a multi-key write refused at the memory limit has changed nothing"},
 		NotCovered:  []string{"last-write-wins, counter arithmetic, byte-for-byte preservation, option combinations of SET, deadlines carried across SET/RENAME (value-level; no sound static argument in reach)"},
 		Rules: []RuleRef{
 			{ID: "WT", Scope: []string{"internal/modules/generic.", "internal/modules/string."}, Floor: 15},
@@ -18,6 +18,7 @@ func init() {
 			{ID: "DC", Scope: []string{"internal/modules/generic.", "internal/modules/string."}, Floor: 1},
 			{ID: "MV", Scope: []string{"internal/modules/generic."}, Floor: 1},
 			{ID: "X4"},
+			{ID: "A1", Scope: []string{"refusal-before-first-write"}, Floor: 1},
 		},
 	})
 	defProp(&Prop{ID: "C02", Title: "Append-only log",
@@ -29,10 +30,10 @@ func init() {
 	})
 	defProp(&Prop{ID: "C03", Title: "Snapshot round trip",
 		Explanation: stance + "Decided clauses: (1) every concrete type handlers store as a value is reproduced with the same dynamic type by the snapshot codec (E8); (2) the restore callbacks store data.Value and data.ExpireAt for the same key and database, the state callbacks copy every database and key (RC); (3) the expired-key filter removes exactly entries whose non-zero deadline is before now (X3 on FilterExpiredKeys); (4) the automatic trigger fires when the change count is at or above the threshold and not below (TR); (5) LASTSAVE is published only after the snapshot is durable and named in the manifest (D6 d); (6) the state copy runs under the store lock (L1 on getState).",
-		Decides:     []string{"E8 codec table agreement", "RC restore/state callbacks", "X3 expired-key filter orientation", "TR automatic trigger", "D6(d) last-save after publish", "L1 state copy under the store lock"},
+		Decides:     []string{"E8 codec table agreement", "RC restore/state callbacks", "X3 expired-key filter orientation", "TR automatic trigger", "D6(d) last-save after publish", "L1 state copy under the store lock", "SA a SAVE that replies OK has started a snapshot"},
 		NotCovered:  []string{"equality of the restored dataset with the dataset at the snapshot instant (needs execution)", "timing of the snapshot interval"},
 		Rules: []RuleRef{{ID: "E8"}, {ID: "RC"}, {ID: "X3", Scope: []string{"internal.FilterExpiredKeys"}, Floor: 2}, {ID: "TR"},
-			{ID: "D6", Scope: []string{"|d:lastsave", "|e:writer-reader"}, Floor: 2}, {ID: "L1", Scope: []string{"sugardb.(*SugarDB).getState|"}, Floor: 1}},
+			{ID: "D6", Scope: []string{"|d:lastsave", "|e:writer-reader"}, Floor: 2}, {ID: "L1", Scope: []string{"sugardb.(*SugarDB).getState|"}, Floor: 1}, {ID: "SA", Scope: []string{"takeSnapshot"}, Floor: 1}},
 		Tech: "static analysis: type-flow table of stored dynamic types vs a model of encoding/json; SSA dataflow identity; abstract evaluation over orderings",
 	})
 	defProp(&Prop{ID: "C04", Title: "Expiry",
@@ -49,26 +50,27 @@ func init() {
 		Assumptions: []string{"the guard table (field -> lock) frozen in locks.go is the intended discipline; it was inferred from the majority of accesses and confirmed by reading"},
 		Rules: []RuleRef{{ID: "L1"}, {ID: "L2"}, {ID: "D8"}, {ID: "L4"}, {ID: "P3"}, {ID: "T7"},
 			{ID: "X3", Scope: []string{"evictKeysWithExpiredTTL|delete:", "getValues|delete:"}, Floor: 4}, {ID: "LP"}},
-		Tech:        "static analysis: interprocedural must-lockset over SSA CFGs with wrapper summaries, caller-chain requirement propagation (VTA), gate-aware lock-order graph, store-reference taint",
+		Tech: "static analysis: interprocedural must-lockset over SSA CFGs with wrapper summaries, caller-chain requirement propagation (VTA), gate-aware lock-order graph, store-reference taint",
 	})
 	defProp(&Prop{ID: "C06", Title: "ACL authorization",
 		Explanation: stance + "Decided clauses: every effectful step of the TCP dispatcher (handler invocation, raft apply, forwarding, AOF append, mutation flag) is dominated by a successful AuthorizeConnection or by a bypass edge for non-TCP callers, and the gate sees the very command, sub-command and tokens that are executed (D1); only the handshake commands are exempt before the authentication test (T4); the decision uses the key-extraction result of the command or sub-command being run (SK), checks channels, read keys and write keys one by one (Q) and consults every rule field of the user (FE); the keys the decision sees are the keys the handler passes to the keyspace, for every table entry and accessor call site (K1, T6).",
-		Decides:     []string{"D1 authorization gate dominates every sink of the dispatcher; gate inputs are the request's", "T4 exemptions within the handshake commands", "SK every key-extraction result feeds the resource checks", "Q every resource collection can cause a per-element denial", "FE every rule field of the user is enforced", "K1+T6 the keys the decision sees are the keys the handler touches (all table entries, all accessor call sites)", "U1 a connection becomes authenticated only on a path that established that the user is enabled (the statement's 'authenticated as an enabled user')"},
+		Decides:     []string{"D1 authorization gate dominates every sink of the dispatcher; gate inputs are the request's", "T4 exemptions within the handshake commands", "SK every key-extraction result feeds the resource checks", "Q every resource collection can cause a per-element denial", "FE every rule field of the user is enforced", "K1+T6 the keys the decision sees are the keys the handler touches (all table entries, all accessor call sites)", "U1 a connection becomes authenticated only on a path that established that the user is enabled (the statement's 'authenticated as an enabled user')", "UP user records keep their identity (connections authorize through a pointer to the record, so rule changes reach open connections)"},
 		NotCovered:  []string{"glob matching semantics, category arithmetic, polarity of individual tests, rule normalisation (value-level)", "that a denied command has no effect on ACL/connection state beyond the dispatcher's sinks"},
 		Rules: []RuleRef{{ID: "D1"}, {ID: "T4"}, {ID: "SK"}, {ID: "Q"}, {ID: "FE"}, {ID: "K1"}, {ID: "T6"},
-			{ID: "U1", Scope: []string{"update-only-if-enabled"}, Floor: 1}},
+			{ID: "U1", Scope: []string{"update-only-if-enabled"}, Floor: 1}, {ID: "UP"}},
 	})
 	defProp(&Prop{ID: "C07", Title: "Replication",
 		Explanation: stance + "Decided clauses: only the dispatcher and the raft FSM invoke command handlers; in a cluster a synced command is never applied locally, raft apply happens only on the leader, forwarding only when enabled, otherwise the client gets an error (D4); every handler that can mutate the keyspace is Sync, i.e. replicated (T2).",
-		Decides:     []string{"D4 cluster guard and routing", "T2 mutators are Sync", "DT synced handlers reach no random source / clock", "N1+N3 the request's database and protocol reach the replicated request and the FSM's handler context", "E8 raft snapshot codec", "NM+RC raft state callback", "RS the raft snapshot captures the state at Snapshot(), not at Persist()"},
+		Decides:     []string{"D4 cluster guard and routing", "T2 mutators are Sync", "DT synced handlers reach no random source / clock", "N1+N3 the request's database and protocol reach the replicated request and the FSM's handler context", "E8 raft snapshot codec", "NM+RC raft state callback", "RS the raft snapshot captures the state at Snapshot(), not at Persist()", "A1 refusal-before-first-write: a write the memory limit refuses is refused as a whole (a partial application would depend on map iteration order and differ between replicas)"},
 		NotCovered:  []string{"convergence after quiescence, ordering inside hashicorp/raft, leadership changes (library behaviour over histories)"},
-		Rules:       []RuleRef{{ID: "D4"}, {ID: "T2"}, {ID: "DT"}, {ID: "N1"}, {ID: "N3"}, {ID: "E8"}, {ID: "NM"}, {ID: "RC", Scope: []string{"|get-state"}, Floor: 3}, {ID: "RS"}},
+		Rules: []RuleRef{{ID: "D4"}, {ID: "T2"}, {ID: "DT"}, {ID: "N1"}, {ID: "N3"}, {ID: "E8"}, {ID: "NM"}, {ID: "RC", Scope: []string{"|get-state"}, Floor: 3}, {ID: "RS"},
+			{ID: "A1", Scope: []string{"refusal-before-first-write"}, Floor: 1}},
 	})
 	defProp(&Prop{ID: "C08", Title: "Max-memory policy",
 		Explanation: stance + "Decided clauses: under noeviction every store write is preceded by the admission test, which refuses exactly when a limit is configured and usage >= limit (A1); evictions happen only at/above the limit and every eviction loop re-tests the limit before the next eviction (A2); volatile policies draw candidates only from keys with a deadline (A3); the heap comparators put the least recently / least frequently used entry first (A4); the LRU and LFU caches maintain the same bookkeeping (SB); random indices are applied to the collection that bounded them (IA); createDatabase / deleteKey / Flush cover every per-database structure and a flushed cache heap is empty (PD).",
-		Decides:     []string{"A1 admission", "A2 eviction bounds", "A3 volatile candidates", "A4 comparator orientation", "SB sibling caches", "IA index agreement", "PD per-database structures", "FA a write refused at the limit has not already changed the dataset (the refusable write is the command's first mutation; under noeviction no key is removed by a refused command)", "N5 an eviction victim is deleted in the database whose cache it was taken from"},
+		Decides:     []string{"A1 admission", "A2 eviction bounds", "A3 volatile candidates", "A4 comparator orientation", "SB sibling caches", "IA index agreement", "PD per-database structures", "FA a write refused at the limit has not already changed the dataset (the refusable write is the command's first mutation; under noeviction no key is removed by a refused command)", "N5 an eviction victim is deleted in the database whose cache it was taken from", "KB an overwrite keeps the key's access count / recency (the write primitives never remove cache or store entries)", "A1 a refused multi-key write has stored nothing (refusal decided before the first entry is written)"},
 		NotCovered:  []string{"which concrete key is evicted for a given history", "the size function's figures", "timing of the asynchronous cache updates"},
-		Rules:       []RuleRef{{ID: "A1"}, {ID: "A2"}, {ID: "A3"}, {ID: "A4"}, {ID: "SB"}, {ID: "IA"}, {ID: "PD"}, {ID: "FA"}, {ID: "N5"}},
+		Rules:       []RuleRef{{ID: "A1"}, {ID: "A2"}, {ID: "A3"}, {ID: "A4"}, {ID: "SB"}, {ID: "IA"}, {ID: "PD"}, {ID: "FA"}, {ID: "N5"}, {ID: "KB"}},
 		Tech:        "static analysis: must-facts on CFG edges, loop-cycle re-test check, abstract evaluation of comparators over {<,=,>}, field-write set comparison of sibling implementations",
 	})
 	defProp(&Prop{ID: "C09", Title: "Log rewrite",
@@ -77,7 +79,7 @@ func init() {
 		NotCovered:  []string{"equality of restored datasets; interleavings beyond lock coverage"},
 		Rules: []RuleRef{{ID: "D5"}, {ID: "D7"}, {ID: "D8", Scope: []string{"internal/aof.", "getState", "handleCommand"}, Floor: 3}, {ID: "E8"},
 			{ID: "L1", Scope: []string{"internal/aof", "preamble.Store", "log.Store"}, Floor: 4}, {ID: "RC", Scope: []string{"|set-key-data", "|get-state"}, Floor: 4}, {ID: "R2", Scope: []string{"internal/aof"}, Floor: 2},
-			{ID: "X3", Scope: []string{"internal.FilterExpiredKeys"}, Floor: 2}, {ID: "RW"}, {ID: "OA"}},
+			{ID: "X3", Scope: []string{"internal.FilterExpiredKeys"}, Floor: 2}, {ID: "RW"}, {ID: "OA"}, {ID: "D3", Scope: []string{"|truncate-"}, Floor: 2}, {ID: "SA", Scope: []string{"rewriteAOF"}, Floor: 1}},
 	})
 	defProp(&Prop{ID: "C10", Title: "Snapshots are crash-atomic",
 		Explanation: stance + "Decided by a typestate over the file operations of TakeSnapshot: the manifest at its final path is replaced only after the new state file was written and fsynced successfully, by an atomic rename of a temporary that was written, fsynced and closed; no failure / nothing-new return is preceded by a manifest replacement or a last-save update; LASTSAVE is published only after the manifest is in place; writer and reader build the same paths (D6); the snapshot-in-progress indication is cleared on every exit (D8).",
@@ -88,9 +90,9 @@ func init() {
 	})
 	defProp(&Prop{ID: "C11", Title: "Authentication and user lifecycle",
 		Explanation: stance + "Decided clauses: a failed authentication attempt never updates the connection table, and every update is followed only by the success return (U1); Enabled, NoPassword, the user name and the password type/value each control the outcome (U2); every field of User/Password is exported with json and yaml tags and Merge/Replace carry every rule field over, so SAVE/LOAD reproduce users (U3); the default user cannot be removed (U4); a new connection is bound to the default user and authenticated exactly when that user needs no password (U5); the user-lifecycle commands do not crash on short or empty arguments (AR over the acl package).",
-		Decides:     []string{"U1 failed AUTH changes nothing", "U2 credential fields enforced", "U3 persistence coverage", "U4 default user undeletable", "U5 connection registration", "AR constant index safety of the acl package"},
+		Decides:     []string{"U1 failed AUTH changes nothing", "U2 credential fields enforced", "U3 persistence coverage", "U4 default user undeletable", "U5 connection registration", "AR constant index safety of the acl package", "UP user records are edited in place, never exchanged: changes made by SETUSER / LOAD govern connections that are already open"},
 		NotCovered:  []string{"password comparison values, rule-string grammar (\"+@all\" stores the category 'all' rather than the wildcard: value-level)", "effect of edits on later decisions over histories", "connection termination timing"},
-		Rules:       []RuleRef{{ID: "U1"}, {ID: "U2"}, {ID: "U3"}, {ID: "U4"}, {ID: "U5"}, {ID: "AR", Scope: []string{"internal/modules/acl."}, Floor: 35}, {ID: "L1", Scope: []string{"acl.ACL."}, Floor: 5}},
+		Rules:       []RuleRef{{ID: "U1"}, {ID: "U2"}, {ID: "U3"}, {ID: "U4"}, {ID: "U5"}, {ID: "AR", Scope: []string{"internal/modules/acl."}, Floor: 35}, {ID: "L1", Scope: []string{"acl.ACL."}, Floor: 5}, {ID: "UP"}},
 	})
 	defProp(&Prop{ID: "C12", Title: "Wire protocol",
 		Explanation: stance + "Decided clauses: the handler the dispatcher invokes is non-nil for every registered command (T1); constant indices into the command are inside every possible length (AR); every reply returned with a nil error ends in CRLF on every path, bulk headers are len() of their payload and no client-controlled string is written inside a simple string or error frame (R1-R3); a panic in a handler is recovered on the connection goroutine and in the raft FSM (W5); after a command was handled the connection loop writes a reply or error line before reading the next message (CL).",
